@@ -28,6 +28,8 @@ class Ctx:
         self._want_types = want_types
         self._cg: Optional[Dict[str, Set[str]]] = None
         self.heap: Heap = heap_of(prog)
+        _EXC_FACTORIES.clear()
+        _EXC_FACTORIES.update(_exception_factories(prog))
 
     @property
     def types(self) -> Any:
@@ -157,16 +159,53 @@ def user_calls(f: Func) -> List[ast.Call]:
     return sorted(out, key=lambda c: c.lineno)
 
 
-def error_code_of(raise_stmt: ast.AST) -> Optional[str]:
-    """Member name of DDSErrorCode carried by a `raise DDSException(..., DDSErrorCode.X)`; '' when no code."""
-    if not isinstance(raise_stmt, ast.Raise) or raise_stmt.exc is None:
-        return None
-    e = raise_stmt.exc
+_EXC_FACTORIES: Dict[str, str] = {}
+
+
+def _code_of_construction(e: ast.AST) -> Optional[str]:
     if isinstance(e, ast.Call) and unparse(e.func).endswith("DDSException"):
         for a in list(e.args) + [k.value for k in e.keywords]:
             if isinstance(a, ast.Attribute) and unparse(a.value).endswith("DDSErrorCode"):
                 return a.attr
         return ""
+    return None
+
+
+def _exception_factories(prog: Program) -> Dict[str, str]:
+    """module-level functions that only build and return a DDSException with one error code
+    (`raise _circular_call_error(..)`): simple name -> code"""
+    out: Dict[str, str] = {}
+    amb: Set[str] = set()
+    for f in prog.funcs.values():
+        if f.cls is not None or f.parent is not None:
+            continue
+        rets = [n for n in f.own_nodes() if isinstance(n, ast.Return)]
+        if not rets or any(isinstance(n, (ast.Raise, ast.Yield)) for n in f.own_nodes()):
+            continue
+        codes = {_code_of_construction(r.value) if r.value is not None else None for r in rets}
+        if len(codes) == 1 and None not in codes:
+            c = next(iter(codes))
+            if f.name in out and out[f.name] != c:
+                amb.add(f.name)
+            out[f.name] = c  # type: ignore
+    for a in amb:
+        out.pop(a, None)
+    return out
+
+
+def error_code_of(raise_stmt: ast.AST) -> Optional[str]:
+    """Member name of DDSErrorCode carried by a `raise DDSException(..., DDSErrorCode.X)` (or by a call of a
+    package function that only builds such an exception); '' when no code."""
+    if not isinstance(raise_stmt, ast.Raise) or raise_stmt.exc is None:
+        return None
+    e = raise_stmt.exc
+    c = _code_of_construction(e)
+    if c is not None:
+        return c
+    if isinstance(e, ast.Call):
+        nm = unparse(e.func).split(".")[-1]
+        if nm in _EXC_FACTORIES:
+            return _EXC_FACTORIES[nm]
     return None
 
 
